@@ -284,7 +284,7 @@ class EngineBase:
             return out
         if isinstance(kind, KRef):
             r = v.z
-            ids = [self.class_id(c) for c in self.subclasses(kind.cls)]
+            ids = [self.class_id(c) for c in self.subclasses(kind.cls) if not self.reg.classes[c].abstract]
             member = z3.Or(*[cls_of(r) == i for i in ids]) if ids else z3.BoolVal(True)
             al = z3.Select(self.alive_arr(st.heap if (st is not None and heap is None) else (heap or {})), r)
             if self.in_old:
